@@ -1178,6 +1178,12 @@ ENG_WITNESSES_SUMMARY = [
   ("bulk_tableId", [1, 3], ["Beta9", "Beta9_summary_a"]),      # source first: the summary table's new id is taken
   ("bulk_tableId", [3, 1], ["Zed_summary_a", "Zed"]),           # other table first: the summary table must move on
   ("bulk_title", [2, 1], ["report summary a", "Report"]),
+  # names of the summary table's OWN columns (count, group) requested for columns of the source table: a group-by
+  # column's new id is copied into the summary table, where it must not meet `count` / `group`
+  ("bundle_RenameColumn", [2], ["Count"]),
+  ("bulk_colId", [2], ["group"]),
+  ("bulk_label", [2], ["count"]),
+  ("bundle_RenameColumn", [3, 2], ["count", "GROUP"]),
 ]
 
 
